@@ -1,1 +1,256 @@
-// harness bodies for h2 src/proto/streams/counts.rs (compiled in-crate as `verif_h`, feature "verif")
+// harness bodies for h2 src/proto/streams/counts.rs
+use super::*;
+use crate::proto::streams::state::verif_h as st_h;
+use crate::proto::streams::store::verif_h as store_h;
+use crate::proto::streams::verif_h::{cfg, mk_instant};
+use crate::proto::streams::store::Resolve;
+
+pub(crate) fn set_counts(c: &mut Counts, num_send: usize, max_send: usize, num_recv: usize, max_recv: usize) {
+    c.num_send_streams = num_send;
+    c.max_send_streams = max_send;
+    c.num_recv_streams = num_recv;
+    c.max_recv_streams = max_recv;
+}
+pub(crate) fn get_counts(c: &Counts) -> (usize, usize) {
+    (c.num_send_streams, c.num_recv_streams)
+}
+pub(crate) fn set_reset_counts(c: &mut Counts, num_local: usize, max_local: usize, num_remote: usize, max_remote: usize) {
+    c.num_local_reset_streams = num_local;
+    c.max_local_reset_streams = max_local;
+    c.num_remote_reset_streams = num_remote;
+    c.max_remote_reset_streams = max_remote;
+}
+pub(crate) fn get_reset_counts(c: &Counts) -> (usize, usize) {
+    (c.num_local_reset_streams, c.num_remote_reset_streams)
+}
+pub(crate) fn set_error_resets(c: &mut Counts, num: usize, max: Option<usize>) {
+    c.num_local_error_reset_streams = num;
+    c.max_local_error_reset_streams = max;
+}
+pub(crate) fn get_error_resets(c: &Counts) -> usize {
+    c.num_local_error_reset_streams
+}
+pub(crate) fn set_peer(c: &mut Counts, p: peer::Dyn) {
+    c.peer = p;
+}
+
+/// C18.data: the DATA-frame budget, one step from any state.  Reference semantics
+/// (documented constants: threshold 256, at most 100 empty non-final frames):
+/// empty frame -> counted, the 101st is an error; small frame (0 < len < 256) costs
+/// 256-len and is an error when the budget does not cover it (budget unchanged);
+/// a frame >= 256 refunds len-256, capped at the maximum.  Budget stays in [0, max].
+pub fn c18_data_budget_step() {
+    let mut c = Counts::new(peer::Dyn::Server, &cfg());
+    let max: usize = kani::any();
+    let avail: usize = kani::any();
+    let empties: usize = kani::any();
+    kani::assume(avail <= max);
+    c.data_frame_budget = Budget { available: avail, max };
+    c.num_recv_empty_data_frames = empties;
+    let len: usize = kani::any();
+    let release: bool = kani::any();
+    if release {
+        c.release_data_frame(len);
+        let a2 = c.data_frame_budget.available;
+        if len != 0 && len < 256 {
+            let want = if (avail as u128) + ((256 - len) as u128) > max as u128 { max } else { avail + (256 - len) };
+            assert!(a2 == want, "release_data_frame: refund of a small frame");
+        } else {
+            assert!(a2 == avail, "release_data_frame must not refund empty or large frames");
+        }
+        assert!(c.num_recv_empty_data_frames == empties);
+    } else {
+        let r = c.record_data_frame(len);
+        let a2 = c.data_frame_budget.available;
+        if len == 0 {
+            assert!(a2 == avail, "empty frames do not touch the byte budget");
+            match r {
+                Ok(()) => assert!(empties < 100 && c.num_recv_empty_data_frames == empties + 1),
+                Err(_) => assert!(empties >= 100, "an empty DATA frame within the allowance was refused"),
+            }
+        } else if len < 256 {
+            let cost = 256 - len;
+            match r {
+                Ok(()) => assert!(avail >= cost && a2 == avail - cost, "small frame: cost 256-len"),
+                Err(_) => assert!(avail < cost && a2 == avail, "small frame refused although the budget covers it"),
+            }
+        } else {
+            assert!(r.is_ok(), "large frames are never refused");
+            let refund = len - 256;
+            let want = if (avail as u128) + (refund as u128) > max as u128 { max } else { avail + refund };
+            assert!(a2 == want, "large frame: refund len-256 capped at max");
+        }
+        kani::cover!(r.is_err() && len > 0, "budget_exhausted");
+        kani::cover!(r.is_err() && len == 0, "too_many_empty");
+    }
+    assert!(c.data_frame_budget.available <= c.data_frame_budget.max, "budget above its maximum");
+    assert!(c.data_frame_budget.max == max);
+    kani::cover!(true, "end");
+    std::mem::forget(c);
+}
+
+/// C05.limit: the peer's MAX_CONCURRENT_STREAMS takes effect exactly as sent.
+pub fn c05_limit_apply_remote_settings() {
+    let mut c = Counts::new(peer::Dyn::Client, &cfg());
+    let num: usize = kani::any();
+    let old_max: usize = kani::any();
+    set_counts(&mut c, num, old_max, 0, usize::MAX);
+    let mut s = frame::Settings::default();
+    let has: bool = kani::any();
+    let val: u32 = kani::any();
+    if has {
+        s.set_max_concurrent_streams(Some(val));
+    }
+    let initial: bool = kani::any();
+    c.apply_remote_settings(&s, initial);
+    let want = if has { val as usize } else if initial { usize::MAX } else { old_max };
+    assert!(c.max_send_streams() == want, "max_send_streams after SETTINGS");
+    assert!(get_counts(&c).0 == num, "SETTINGS changed the number of open streams");
+    // lowering the limit below the open count admits nothing new and does not panic
+    assert!(c.can_inc_num_send_streams() == (want > num), "admission predicate");
+    kani::cover!(has && (val as usize) < num, "lowered_below_open");
+    kani::cover!(!has && initial, "first_settings_without_limit");
+    kani::cover!(true, "end");
+    std::mem::forget(c);
+}
+
+/// C05.free / C19.release / N3: `transition_after` from an arbitrary stream record.
+/// `lo..=hi` bounds the state shapes (see state.rs harness) of this query.
+fn transition_after_case(lo: u8, hi: u8) {
+    let mut counts = Counts::new(peer::Dyn::Client, &cfg());
+    let is_server: bool = kani::any();
+    set_peer(&mut counts, if is_server { peer::Dyn::Server } else { peer::Dyn::Client });
+    let mut store = Store::new();
+    let idv: u32 = kani::any();
+    kani::assume(idv == 1 || idv == 2); // one local-, one remote-initiated id
+    let id = StreamId::from(idv);
+    let local_init = is_server == (idv % 2 == 0);
+    let mut stream = Stream::new(id, 0, 0);
+    stream.state = st_h::any_state_in(id, lo, hi);
+    let key = {
+        let ptr = store.insert(id, stream);
+        ptr.key()
+    };
+    // symbolic bookkeeping flags, written in place
+    let counted: bool = kani::any();
+    let refs: usize = kani::any();
+    kani::assume(refs <= 2);
+    let f_send: bool = kani::any();
+    let f_cap: bool = kani::any();
+    let f_accept: bool = kani::any();
+    let f_wu: bool = kani::any();
+    let f_open: bool = kani::any();
+    let has_reset_at: bool = kani::any();
+    let queue_nonempty: bool = kani::any();
+    let buffered: usize = kani::any();
+    {
+        let mut p = store.resolve(key);
+        p.is_counted = counted;
+        p.ref_count = refs;
+        p.is_pending_send = f_send;
+        p.is_pending_send_capacity = f_cap;
+        p.is_pending_accept = f_accept;
+        p.is_pending_window_update = f_wu;
+        p.is_pending_open = f_open;
+        if has_reset_at {
+            p.reset_at = Some(mk_instant(1_000, 0));
+        }
+        if queue_nonempty {
+            p.pending_send = crate::proto::streams::buffer::verif_h::fake_nonempty();
+        }
+        p.buffered_send_data = buffered;
+    }
+    let is_reset_counted: bool = kani::any();
+    // N1 / N4 (counter invariants): a counted stream is included in its counter, a
+    // stream remembered as locally reset is included in num_local_reset_streams
+    let ns: usize = kani::any();
+    let nr: usize = kani::any();
+    let nl: usize = kani::any();
+    kani::assume(!(counted && local_init) || ns >= 1);
+    kani::assume(!(counted && !local_init) || nr >= 1);
+    kani::assume(!is_reset_counted || nl >= 1);
+    set_counts(&mut counts, ns, usize::MAX, nr, usize::MAX);
+    set_reset_counts(&mut counts, nl, usize::MAX, 0, 10);
+
+    // reference predicates, from the fields (not through h2's helpers)
+    let state_closed = store[key].state.is_closed();
+    let scheduled = store[key].state.is_scheduled_reset();
+    let closed = state_closed && !queue_nonempty && buffered == 0;
+    let released = closed && refs == 0 && !f_send && !f_cap && !f_accept && !f_wu && !f_open && !has_reset_at;
+
+    let ptr = store.resolve(key);
+    counts.transition_after(ptr, is_reset_counted);
+
+    let (ns2, nr2) = get_counts(&counts);
+    let (nl2, _) = get_reset_counts(&counts);
+    let dec = closed && !scheduled && counted;
+    if dec {
+        if local_init {
+            assert!(ns2 == ns - 1 && nr2 == nr, "closed locally-initiated stream must free exactly one send slot");
+        } else {
+            assert!(nr2 == nr - 1 && ns2 == ns, "closed peer-initiated stream must free exactly one recv slot");
+        }
+    } else {
+        assert!(ns2 == ns && nr2 == nr, "slot counters changed for a stream that is not closing");
+    }
+    if closed && !has_reset_at {
+        assert!(!store_h::ids_contains(&store, id), "closed stream still reachable by id");
+        assert!(nl2 == if is_reset_counted { nl - 1 } else { nl }, "local-reset memory counter");
+    } else {
+        assert!(store_h::ids_contains(&store, id), "live (or remembered) stream unlinked");
+        assert!(nl2 == nl);
+    }
+    if released {
+        assert!(!store_h::slab_contains(&store, key), "released stream record still stored");
+    } else {
+        assert!(store_h::slab_contains(&store, key), "record of a stream that is still referenced/queued was removed");
+        let s = &store[key];
+        assert!(s.is_counted == (counted && !dec), "is_counted flag");
+        // a second call changes nothing more (decrement happens exactly once)
+        let ptr = store.resolve(key);
+        counts.transition_after(ptr, false);
+        assert!(get_counts(&counts) == (ns2, nr2), "second transition_after decremented again");
+    }
+    kani::cover!(released, "released");
+    kani::cover!(dec && !released, "freed_slot_but_kept");
+    kani::cover!(closed && has_reset_at, "remembered_reset");
+    kani::cover!(true, "end");
+    std::mem::forget(store);
+    std::mem::forget(counts);
+}
+pub fn c05_free_transition_after_live() { transition_after_case(0, 5) }
+pub fn c05_free_transition_after_closed_end() { transition_after_case(6, 6) }
+pub fn c05_free_transition_after_closed_reset() { transition_after_case(7, 8) }
+pub fn c05_free_transition_after_closed_sched() { transition_after_case(9, 9) }
+pub fn c05_free_transition_after_closed_conn() { transition_after_case(10, 11) }
+
+/// N2: each increment function refuses (panics) when the matching `can_inc` is false
+/// and increments by exactly one otherwise; `is_counted` set exactly once.
+pub fn c05_inc_guards() {
+    let mut counts = Counts::new(peer::Dyn::Client, &cfg());
+    let mut store = Store::new();
+    let key = store_h::insert_slab_only(&mut store, Stream::new(StreamId::from(1), 0, 0));
+    let ns: usize = kani::any();
+    let ms: usize = kani::any();
+    let nr: usize = kani::any();
+    let mr: usize = kani::any();
+    set_counts(&mut counts, ns, ms, nr, mr);
+    let which: bool = kani::any();
+    let mut ptr = store.resolve(key);
+    if which {
+        kani::assume(counts.can_inc_num_send_streams());
+        assert!(ms > ns);
+        counts.inc_num_send_streams(&mut ptr);
+        assert!(get_counts(&counts) == (ns + 1, nr) && ptr.is_counted);
+        assert!(ns + 1 <= ms, "send streams above the peer's limit");
+    } else {
+        kani::assume(counts.can_inc_num_recv_streams());
+        assert!(mr > nr);
+        counts.inc_num_recv_streams(&mut ptr);
+        assert!(get_counts(&counts) == (ns, nr + 1) && ptr.is_counted);
+        assert!(nr + 1 <= mr, "recv streams above the advertised limit");
+    }
+    kani::cover!(true, "end");
+    std::mem::forget(store);
+    std::mem::forget(counts);
+}
